@@ -149,6 +149,19 @@ def run(ctx, repo, tier):
                 if kw_.arg:
                     ren[kw_.arg] = src(kw_.value)
             guards += raise_guards(hm.node, ren)
+        elif isinstance(c, ast.Call) and isinstance(c.func, ast.Name) and pm.functions.get(c.func.id) is not None and pm.functions[c.func.id].cls is None:
+            # ... or in a module-level helper
+            hm = pm.functions[c.func.id]
+            ctx.analysed(hm)
+            ps = [a.arg for a in hm.node.args.posonlyargs + hm.node.args.args]
+            ren = {}
+            for k_, a_ in enumerate(c.args):
+                if k_ < len(ps):
+                    ren[ps[k_]] = src(a_)
+            for kw_ in c.keywords:
+                if kw_.arg:
+                    ren[kw_.arg] = src(kw_.value)
+            guards += raise_guards(hm.node, ren)
     ctx.instance("LEN")
     okg = None
     for l, op, r, g in guards:
